@@ -7,7 +7,7 @@ use serde_json::{Value, json};
 use std::path::Path;
 use std::process::Command;
 
-const CRASH_OWNERS: &[&str] = &["C01", "C03", "C04", "C05", "C06", "C07", "C14", "C18", "C20"];
+const CRASH_OWNERS: &[&str] = &["C01", "C03", "C04", "C05", "C06", "C07", "C14", "C15", "C16", "C18", "C19", "C20"];
 
 /// Executes one saved case. Exit code 1 (and a VIOLATION line) if the recorded property is violated.
 pub fn replay_file(path: &str) -> i32 {
@@ -133,6 +133,27 @@ pub fn triage_crash(prop: &str, tier: Tier, seed: u64, exe: &Path) -> i32 {
     let niche_crash = prop == "C20" && case.get("kind").and_then(|k| k.as_str()) == Some("niche");
     // C10: "moves the handle to its own storage with the correct contents" - a crash of a history over static handles
     let static_crash = prop == "C10" && case.to_string().contains("\"from_static\"");
+    // a recorded range of enumerated inputs: bisect it down to the first input that crashes
+    if case.get("kind").and_then(|k| k.as_str()) == Some("bytes_range") {
+        let stride = case["stride"].as_u64().unwrap_or(1).max(1);
+        let (mut lo, mut hi) = (case["from"].as_u64().unwrap_or(0), case["to"].as_u64().unwrap_or(0));
+        while hi > lo + stride {
+            let steps = (hi - lo).div_ceil(stride);
+            let mid = lo + (steps / 2) * stride;
+            let mut c2 = case.clone();
+            c2["from"] = json!(lo);
+            c2["to"] = json!(mid);
+            let f = dir.join("triage-min.json");
+            let _ = std::fs::write(&f, serde_json::to_vec(&json!({"property": prop, "case": c2})).unwrap());
+            if run_child_on(exe, &f).is_none() {
+                hi = mid;
+            } else {
+                lo = mid;
+            }
+        }
+        case["from"] = json!(lo);
+        case["to"] = json!(hi);
+    }
     if !CRASH_OWNERS.contains(&prop) && !niche_crash && !static_crash {
         eprintln!(
             "INCONCLUSIVE property={prop}: the engine crashed (signal) on a recorded case; crashes are reported by the checks of C01/C03/C05/C06/C07/C18/C20, not by this one"
